@@ -79,12 +79,12 @@ type fn struct {
 }
 
 var (
-	fset    *token.FileSet
-	funcs   = map[string]*fn{}
-	litName = map[*ast.FuncLit]string{}
-	execLits []string            // function literals with the Executor signature (command executors)
+	fset          *token.FileSet
+	funcs         = map[string]*fn{}
+	litName       = map[*ast.FuncLit]string{}
+	execLits      []string                // function literals with the Executor signature (command executors)
 	methodsByName = map[string][]string{} // method name -> functions (for interface dispatch)
-	ownPkgs = map[string]bool{}
+	ownPkgs       = map[string]bool{}
 )
 
 func isSyncType(t types.Type) bool {
@@ -142,6 +142,57 @@ type walker struct {
 	f    *fn
 	held lockset
 	pkg  *packages.Package
+	// local variables that alias the backing store of a shared slice / map field (v := x.f, v := x.f[a:b]): reading or
+	// writing THROUGH them touches the elements of x.f, with whatever locks are held at that later point
+	alias map[*types.Var]string
+}
+
+// sharedContainer: e denotes (a reslicing of) a slice- or map-typed field of an own-package struct reached through a
+// pointer, or a local alias of one; returns the element location "<Struct.field>[]".
+func (w *walker) sharedContainer(e ast.Expr) (string, bool) {
+	for {
+		switch v := e.(type) {
+		case *ast.ParenExpr:
+			e = v.X
+			continue
+		case *ast.SliceExpr:
+			e = v.X
+			continue
+		}
+		break
+	}
+	switch v := e.(type) {
+	case *ast.Ident:
+		if obj, ok := w.info.Uses[v].(*types.Var); ok {
+			if loc, ok := w.alias[obj]; ok {
+				return loc, true
+			}
+		}
+	case *ast.SelectorExpr:
+		obj, ok := w.info.Uses[v.Sel].(*types.Var)
+		if !ok || !obj.IsField() || obj.Pkg() == nil || !ownPkgs[obj.Pkg().Path()] {
+			return "", false
+		}
+		switch obj.Type().Underlying().(type) {
+		case *types.Slice, *types.Map:
+		default:
+			return "", false
+		}
+		// a field of a struct VALUE in a local variable is not shared
+		if id, ok := v.X.(*ast.Ident); ok {
+			if lv, ok := w.info.Uses[id].(*types.Var); ok && !lv.IsField() {
+				if _, isStruct := lv.Type().Underlying().(*types.Struct); isStruct {
+					return "", false
+				}
+			}
+		}
+		return structName(obj, w.info, v) + "." + obj.Name() + "[]", true
+	}
+	return "", false
+}
+
+func (w *walker) recordElem(loc string, write bool, pos token.Pos) {
+	w.f.accesses = append(w.f.accesses, access{loc: loc, write: write, held: w.held.copy(), pos: fset.Position(pos)})
 }
 
 func (w *walker) funcKey(obj *types.Func) string {
@@ -225,12 +276,30 @@ func (w *walker) expr(e ast.Node, written map[*ast.SelectorExpr]bool) {
 			if !written[v] {
 				w.recordAccess(v, false)
 			}
+		case *ast.IndexExpr:
+			if loc, ok := w.sharedContainer(v.X); ok {
+				w.recordElem(loc, false, v.Pos())
+			}
 		}
 		return true
 	})
 }
 
 func (w *walker) call(c *ast.CallExpr) {
+	// a shared container handed to a call is read (its elements may be) with the locks held now; append / delete / copy
+	// into it write its elements
+	for i, a := range c.Args {
+		if loc, ok := w.sharedContainer(a); ok {
+			wr := false
+			if id, ok := c.Fun.(*ast.Ident); ok && i == 0 && (id.Name == "append" || id.Name == "delete" || id.Name == "copy") {
+				wr = true
+			}
+			if id, ok := c.Fun.(*ast.Ident); ok && (id.Name == "len" || id.Name == "cap") {
+				continue
+			}
+			w.recordElem(loc, wr, a.Pos())
+		}
+	}
 	// delete(x.f, k) writes x.f
 	if id, ok := c.Fun.(*ast.Ident); ok && id.Name == "delete" && len(c.Args) > 0 {
 		if s := lhsBase(c.Args[0]); s != nil {
@@ -311,6 +380,36 @@ func (w *walker) stmt(s ast.Stmt) {
 				written[b] = true
 				w.recordAccess(b, true)
 			}
+			if ix, ok := l.(*ast.IndexExpr); ok {
+				if loc, ok := w.sharedContainer(ix.X); ok {
+					w.recordElem(loc, true, ix.Pos())
+				}
+			}
+		}
+		if len(v.Lhs) == len(v.Rhs) {
+			for i, l := range v.Lhs {
+				id, ok := l.(*ast.Ident)
+				if !ok {
+					continue
+				}
+				var lv *types.Var
+				if d, ok := w.info.Defs[id].(*types.Var); ok {
+					lv = d
+				} else if u, ok := w.info.Uses[id].(*types.Var); ok && !u.IsField() {
+					lv = u
+				}
+				if lv == nil {
+					continue
+				}
+				if loc, ok := w.sharedContainer(v.Rhs[i]); ok {
+					if w.alias == nil {
+						w.alias = map[*types.Var]string{}
+					}
+					w.alias[lv] = loc
+				} else if w.alias != nil {
+					delete(w.alias, lv)
+				}
+			}
 		}
 		for _, l := range v.Lhs {
 			w.expr(l, written)
@@ -371,6 +470,9 @@ func (w *walker) stmt(s ast.Stmt) {
 		w.block(v.Body)
 	case *ast.RangeStmt:
 		w.expr(v.X, nil)
+		if loc, ok := w.sharedContainer(v.X); ok {
+			w.recordElem(loc, false, v.X.Pos())
+		}
 		w.block(v.Body)
 	case *ast.SwitchStmt:
 		if v.Init != nil {
@@ -405,6 +507,13 @@ func (w *walker) stmt(s ast.Stmt) {
 	case *ast.ReturnStmt:
 		for _, r := range v.Results {
 			w.expr(r, nil)
+			if loc, ok := w.sharedContainer(r); ok {
+				// the container itself leaves the function: whoever receives it reads its elements without this function's locks
+				saved := w.held
+				w.held = lockset{}
+				w.recordElem(loc, false, r.Pos())
+				w.held = saved
+			}
 		}
 	case *ast.DeclStmt:
 		w.expr(v, nil)
